@@ -58,6 +58,20 @@ Theorem short_build_id_slice_panics : forall s, (String.length s < 2)%nat -> is_
 Proof. exact slice_short_panics. Qed.
 Print Assumptions short_build_id_slice_panics.
 
+(* the slices are pieces of the very string the guard measured: they recompose it (no normalised copy) ... *)
+Theorem slices_recompose_the_measured_string : forall id n a b,
+  slice_to id n = Ok a -> slice_from id n = Ok b -> (a ++ b)%string = id.
+Proof. exact slices_recompose_lemma. Qed.
+Print Assumptions slices_recompose_the_measured_string.
+
+(* ... and for every build id longer than two bytes the LLVM candidate is path / id[:2] / id[2:].debug of the RAW id *)
+Theorem locate_llvm_candidate_uses_raw_id : forall path_base path_dir path file id globbed l,
+  (2 < String.length id)%nat ->
+  locate_candidates path_base path_dir path file id globbed = Ok l ->
+  In [path; take 2 id; (drop 2 id ++ ".debug")%string] l.
+Proof. exact locate_llvm_candidate_lemma. Qed.
+Print Assumptions locate_llvm_candidate_uses_raw_id.
+
 (* -- typed option setting (config.go:224 set, :297 configure, :332 applyURL) -- *)
 Theorem set_never_panics : forall pf f value, supported f = true -> is_panic (set_value pf f value) = false.
 Proof. exact set_value_no_panic. Qed.
@@ -182,6 +196,12 @@ Theorem trim_tree_panics_outside_tree_formats : forall buildf sitef fmt,
 Proof. exact trim_site_panics_outside. Qed.
 Print Assumptions trim_tree_panics_outside_tree_formats.
 
+(* -- F38 (known finding): the web handlers do NOT turn every report error into a 400 -- the smallest positive
+   float64 is a divisor whose reciprocal overflows; /flamegraph then answers 500 (class predicate of the finding) *)
+Theorem web_errors_are_400_refuted : reciprocal_overflows 1 (2 ^ 1074) = true /\ reciprocal_overflows 1 2 = false.
+Proof. vm_compute. split; reflexivity. Qed.
+Print Assumptions web_errors_are_400_refuted.
+
 (* -- non-vacuity and the necessity of the hypotheses -- *)
 Example trim_tree_sites_exist : trim_tree_sites <> [] /\ build_tree_formats <> [].
 Proof. split; discriminate. Qed.
@@ -209,6 +229,12 @@ Proof. vm_compute. repeat split; reflexivity. Qed.
 Example weblist_merge_examples :
   merge_lines None [10; 12; 40; 41] = [(10, 13); (40, 42)].
 Proof. vm_compute. reflexivity. Qed.
+
+Example path_examples :
+  map path_clean [""; "//"; "a//b/"; "a/../../b"; "/../a"; " / "] = ["."; "/"; "a/b"; "../b"; "/a"; " / "] /\
+  map path_base [""; "//"; "/a/b//"] = ["."; "/"; "b"] /\ map path_dir ["a"; "/a/b//"; "a/b/../c"] = ["."; "/a/b"; "a"] /\
+  path_join ["/p"; " a "; ""; "x"] = "/p/ a /x" /\ path_join [""; ""] = "".
+Proof. vm_compute. repeat split; reflexivity. Qed.
 
 Example locate_example :
   locate_candidates (fun s => s) (fun s => s) "P" "" "ab" [] = Ok [["P"; "ab"; ""]; ["P"; ""; "ab"]] /\
